@@ -270,6 +270,7 @@ class Realiser:
 
     def realise(self, prog):
         env = {"x": self.x, "y": self.y}
+        self.env = env
         self.block(prog["nodes"], env)
         outs = {f"out{i}": env[o] for i, o in enumerate(prog["outs"])}
         ins = {"x": self.x, "y": self.y}
